@@ -25,4 +25,4 @@ def spec():
         Row('Sub', 'E2', 'S1', guard=8, actions=['sub_mid']),
     ])
     return {'name': 'M09', 'events': ['E0', 'E1', 'E2', 'E3', 'E4'], 'bases': {'E2': 'E1', 'E3': 'E2'},
-            'flags': [], 'root': root, 'configs': ['b', 'bq', 'b11', 'mf']}
+            'flags': [], 'root': root, 'configs': ['b', 'bq', 'mf']}
